@@ -3,7 +3,8 @@
 (* LBClient (lbclient.go), property C40.                                    *)
 (*                                                                         *)
 (* One action per step of the code:                                         *)
-(*   GetBegin    get(): RLock, cs := cc.cs          (NoClients if empty)     *)
+(*   GetBegin    get(): lazy init (Clients appended once), RLock, cs := cc.cs *)
+(*               (NoClients if empty)                                        *)
 (*   ReadLoad    one iteration of get's loop: n := PendingRequests() of the  *)
 (*               BalancingClient + penalty, t := total                       *)
 (*   Choose      end of get(): the (n, t)-minimal entry of the snapshot,     *)
@@ -35,6 +36,7 @@ Range(s) == { s[i] : i \in 1..Len(s) }
 
 VARIABLES
   members,    \* cc.cs
+  inited,     \* cc.once has run: LBClient.Clients were appended to cc.cs (lazily, by the first get)
   ever,       \* clients that have ever been members (each is added at most once)
   ext,        \* [Clients -> ExtLoads]
   inflight,   \* [Clients -> Nat]   calls inside the BalancingClient's DoDeadline
@@ -44,10 +46,10 @@ VARIABLES
   chosen,     \* [Calls -> Clients \cup {0}]
   started     \* number of calls started
 
-vars == <<members, ever, ext, inflight, penalty, total, timers, pc, snap, chosen, started>>
+vars == <<members, inited, ever, ext, inflight, penalty, total, timers, pc, snap, chosen, started>>
 
 Init ==
-  /\ members = InitMembers /\ ever = Range(InitMembers)
+  /\ members = << >> /\ inited = FALSE /\ ever = Range(InitMembers)
   /\ ext \in [Clients -> ExtLoads]
   /\ inflight = [c \in Clients |-> 0] /\ penalty = [c \in Clients |-> 0]
   /\ total = [c \in Clients |-> 0] /\ timers = [c \in Clients |-> 0]
@@ -56,12 +58,16 @@ Init ==
 
 Readers == { k \in Calls : pc[k] = "reading" }
 
+\* cc.once.Do(cc.init): the first get appends the configured Clients to whatever AddClient put
+\* into cc.cs before; then RLock, cs := cc.cs
+CurMembers == IF inited THEN members ELSE members \o InitMembers
 GetBegin(k) ==
   /\ pc[k] \in {"idle", "done", "noclients"} /\ started < MaxCalls
   /\ started' = started + 1
+  /\ members' = CurMembers /\ inited' = TRUE
   /\ snap' = [snap EXCEPT ![k] = << >>] /\ chosen' = [chosen EXCEPT ![k] = 0]
-  /\ pc' = [pc EXCEPT ![k] = IF members = << >> THEN "noclients" ELSE "reading"]
-  /\ UNCHANGED <<members, ever, ext, inflight, penalty, total, timers>>
+  /\ pc' = [pc EXCEPT ![k] = IF CurMembers = << >> THEN "noclients" ELSE "reading"]
+  /\ UNCHANGED <<ever, ext, inflight, penalty, total, timers>>
 
 Load(c) == ext[c] + inflight[c] + penalty[c]
 
@@ -69,7 +75,7 @@ ReadLoad(k) ==
   /\ pc[k] = "reading" /\ Len(snap[k]) < Len(members)
   /\ LET c == members[Len(snap[k]) + 1] IN
        snap' = [snap EXCEPT ![k] = Append(@, [c |-> c, n |-> Load(c), t |-> total[c]])]
-  /\ UNCHANGED <<members, ever, ext, inflight, penalty, total, timers, pc, chosen, started>>
+  /\ UNCHANGED <<inited, members, ever, ext, inflight, penalty, total, timers, pc, chosen, started>>
 
 \* e is (n, t)-minimal in snapshot s
 LexLeq(a, b) == a.n < b.n \/ (a.n = b.n /\ a.t <= b.t)
@@ -79,25 +85,25 @@ Choose(k) ==
   /\ pc[k] = "reading" /\ Len(snap[k]) = Len(members)
   /\ \E i \in Minimal(snap[k]) : chosen' = [chosen EXCEPT ![k] = snap[k][i].c]
   /\ pc' = [pc EXCEPT ![k] = "chosen"]
-  /\ UNCHANGED <<members, ever, ext, inflight, penalty, total, timers, snap, started>>
+  /\ UNCHANGED <<inited, members, ever, ext, inflight, penalty, total, timers, snap, started>>
 
 CallStart(k) ==
   /\ pc[k] = "chosen"
   /\ inflight' = [inflight EXCEPT ![chosen[k]] = @ + 1]
   /\ pc' = [pc EXCEPT ![k] = "inflight"]
-  /\ UNCHANGED <<members, ever, ext, penalty, total, timers, snap, chosen, started>>
+  /\ UNCHANGED <<inited, members, ever, ext, penalty, total, timers, snap, chosen, started>>
 
 CallEnd(k, healthy) ==
   /\ pc[k] = "inflight"
   /\ inflight' = [inflight EXCEPT ![chosen[k]] = @ - 1]
   /\ pc' = [pc EXCEPT ![k] = IF healthy THEN "ok" ELSE "fail"]
-  /\ UNCHANGED <<members, ever, ext, penalty, total, timers, snap, chosen, started>>
+  /\ UNCHANGED <<inited, members, ever, ext, penalty, total, timers, snap, chosen, started>>
 
 Succeed(k) ==
   /\ pc[k] = "ok"
   /\ total' = [total EXCEPT ![chosen[k]] = @ + 1]
   /\ pc' = [pc EXCEPT ![k] = "done"]
-  /\ UNCHANGED <<members, ever, ext, inflight, penalty, timers, snap, chosen, started>>
+  /\ UNCHANGED <<inited, members, ever, ext, inflight, penalty, timers, snap, chosen, started>>
 
 IncPenalty(k) ==
   /\ pc[k] = "fail"
@@ -106,36 +112,36 @@ IncPenalty(k) ==
        /\ IF penalty[c] + 1 > MaxPenalty
             THEN pc' = [pc EXCEPT ![k] = "undo"] /\ UNCHANGED timers
             ELSE pc' = [pc EXCEPT ![k] = "done"] /\ timers' = [timers EXCEPT ![c] = @ + 1]
-  /\ UNCHANGED <<members, ever, ext, inflight, total, snap, chosen, started>>
+  /\ UNCHANGED <<inited, members, ever, ext, inflight, total, snap, chosen, started>>
 
 \* incPenalty's undo (decPenalty) and then DoDeadline's else-branch: total++
 Undo(k) ==
   /\ pc[k] = "undo"
   /\ penalty' = [penalty EXCEPT ![chosen[k]] = @ - 1]
   /\ pc' = [pc EXCEPT ![k] = "undone"]
-  /\ UNCHANGED <<members, ever, ext, inflight, total, timers, snap, chosen, started>>
+  /\ UNCHANGED <<inited, members, ever, ext, inflight, total, timers, snap, chosen, started>>
 
 UndoTotal(k) ==
   /\ pc[k] = "undone"
   /\ total' = [total EXCEPT ![chosen[k]] = @ + 1]
   /\ pc' = [pc EXCEPT ![k] = "done"]
-  /\ UNCHANGED <<members, ever, ext, inflight, penalty, timers, snap, chosen, started>>
+  /\ UNCHANGED <<inited, members, ever, ext, inflight, penalty, timers, snap, chosen, started>>
 
 Expire(c) ==
   /\ Expiry /\ timers[c] > 0
   /\ timers' = [timers EXCEPT ![c] = @ - 1]
   /\ penalty' = [penalty EXCEPT ![c] = @ - 1]
-  /\ UNCHANGED <<members, ever, ext, inflight, total, pc, snap, chosen, started>>
+  /\ UNCHANGED <<inited, members, ever, ext, inflight, total, pc, snap, chosen, started>>
 
 AddClient(c) ==
   /\ Membership /\ Readers = {} /\ c \notin ever
   /\ members' = Append(members, c) /\ ever' = ever \cup {c}
-  /\ UNCHANGED <<ext, inflight, penalty, total, timers, pc, snap, chosen, started>>
+  /\ UNCHANGED <<inited, ext, inflight, penalty, total, timers, pc, snap, chosen, started>>
 
 RemoveClients(S) ==
   /\ Membership /\ Readers = {} /\ S # {} /\ S \subseteq Range(members)
   /\ members' = SelectSeq(members, LAMBDA c : c \notin S)
-  /\ UNCHANGED <<ever, ext, inflight, penalty, total, timers, pc, snap, chosen, started>>
+  /\ UNCHANGED <<inited, ever, ext, inflight, penalty, total, timers, pc, snap, chosen, started>>
 
 Next ==
   \/ \E k \in Calls : GetBegin(k) \/ ReadLoad(k) \/ Choose(k) \/ CallStart(k) \/ CallEnd(k, TRUE) \/ CallEnd(k, FALSE)
